@@ -216,6 +216,20 @@ func (win Window) PrintTruncate(row int, segs ...Segment) {
 		Grapheme: "…",
 		Width:    1,
 	}
+	// Only truncate if the text is wider than the window
+	total := 0
+	for _, seg := range segs {
+		for _, char := range Characters(seg.Text) {
+			if !win.Vx.caps.unicodeCore || !win.Vx.caps.explicitWidth {
+				char.Width = win.Vx.characterWidth(char.Grapheme)
+			}
+			total += char.Width
+		}
+	}
+	if total <= cols {
+		win.Println(row, segs...)
+		return
+	}
 	for _, seg := range segs {
 		for _, char := range Characters(seg.Text) {
 			if !win.Vx.caps.unicodeCore || !win.Vx.caps.explicitWidth {
